@@ -1518,8 +1518,23 @@ static int table_check(ctx_t *c, const int *xi, const char *when)
 	if (m->cal[ci].live && ci + 1 > end)
 	    end = ci + 1;
     for (int k = 0; k < 2 * NX; ++k) {
-	if (xi[k] < 0)
+	if (xi[k] < 0) {
+	    /* a name that is not (or no longer) in the table is not found,
+	       whatever longer or shorter names are ("x1" next to "x10") */
+	    snprintf(nm, sizeof(nm), "%c%d", k < NX ? 'x' : 'y', k % NX);
+	    errno = 0;
+	    int f = vnacal_find_calibration(c->vcp, nm);
+	    ++c->r->transitions;
+	    if (f != -1) {
+		vf_fail(c->r, "table:ghost", "%s: vnacal_find_calibration"
+			"(\"%s\") = %d (\"%s\") though no calibration has "
+			"that name", when, nm, f,
+			vnacal_get_name(c->vcp, f) ? vnacal_get_name(c->vcp, f)
+			: "(null)");
+		return -1;
+	    }
 	    continue;
+	}
 	if (xi[k] + 1 > end)
 	    end = xi[k] + 1;
 	snprintf(nm, sizeof(nm), "%c%d", k < NX ? 'x' : 'y', k % NX);
